@@ -4,7 +4,7 @@ use crate::alpha;
 use crate::ev::{guarded, Ctx};
 use crate::model::eddsa;
 use crate::model::nat::{hex, U};
-use crate::model::zl::l;
+use crate::model::zl::{l, Zl};
 use crate::props::sigs::seeds;
 use ed25519_dalek::{verify_batch, Signature, VerifyingKey};
 use rayon::prelude::*;
@@ -18,7 +18,8 @@ use std::sync::atomic::Ordering;
 pub struct Entry {
     key: u8,
     msg: u8,
-    corrupt: u8, // 0 honest, 1 key->other honest, 2 message bit, 3 R->other honest R, 4 R undecodable, 5 S+l, 6 S->other honest S
+    corrupt: u8, // 0 honest, 1 key->other honest, 2 message bit, 3 R->other honest R, 4 R undecodable, 5 S+l, 6 S->other honest S,
+                 // 7 R undecodable with S = H(R,A,M)*a: the entry whose remaining terms cancel if its R term is dropped
 }
 
 struct World {
@@ -71,6 +72,15 @@ impl World {
             6 => {
                 let o = self.sigs[k][(m + 1) % self.msgs.len()];
                 sig[32..].copy_from_slice(&o[32..]);
+            }
+            7 => {
+                let mut rb = [0u8; 32];
+                rb[0] = 2;
+                let key_m = eddsa::keygen(&self.seeds[k]);
+                let h = Zl::from_le(&eddsa::sha512(&[&rb, &key_m.public, &msg]));
+                let sv = h.mul(&Zl::new(&key_m.a));
+                sig[..32].copy_from_slice(&rb);
+                sig[32..].copy_from_slice(&sv.0.to_le32());
             }
             _ => {}
         }
@@ -208,7 +218,7 @@ pub fn run(ctx: &Ctx) {
     // menu of entries
     let mut menu = Vec::new();
     for (k, m) in [(0u8, 0u8), (1, 1), (2, 2)] {
-        for c in 0..7u8 {
+        for c in 0..8u8 {
             if quick && (k, m) != (0, 0) && c > 0 && c != 5 {
                 continue;
             }
@@ -229,7 +239,7 @@ pub fn run(ctx: &Ctx) {
         for &n in &sizes {
             v.push((n, None));
             for pos in [0usize, n / 2, n - 1] {
-                for c in if quick { vec![1u8, 4, 5] } else { vec![1u8, 2, 3, 4, 5, 6] } {
+                for c in if quick { vec![1u8, 4, 5, 7] } else { vec![1u8, 2, 3, 4, 5, 6, 7] } {
                     v.push((n, Some((pos, c))));
                 }
             }
@@ -343,7 +353,7 @@ pub fn panic_sweep(ctx: &Ctx, quick: bool) {
     // every corruption at every position of a short batch
     for len in 1..=n {
         for pos in 0..len {
-            for c in 0..7u8 {
+            for c in 0..8u8 {
                 ctx.eval(1);
                 let batch: Vec<Entry> = (0..len).map(|i| Entry { key: (i % 3) as u8, msg: (i % 3) as u8, corrupt: if i == pos { c } else { 0 } }).collect();
                 if let Err(e) = run_batch(&w, &batch, (len, len, len)) {
@@ -376,6 +386,7 @@ pub fn panic_sweep(ctx: &Ctx, quick: bool) {
             jobs.push((n, None));
             jobs.push((n, Some((n - 1, 1))));
             jobs.push((n, Some((0, 5))));
+            jobs.push((n, Some((n / 2, 7))));
         }
         jobs.par_iter().for_each(|(n, cor)| {
             ctx.eval(1);
